@@ -893,6 +893,262 @@ def type_sequence_cases():
             yield render("vcf", rows, vcf_header("typeseq-%d" % k, decl, ["s0", "s1"])), order
 
 
+# ---- two or more ADJACENT comment lines (formats whose comments may stand anywhere: GFF3, wig-style bedGraph)
+ADJ_COMMENT_LINES = ["#c", "##longer comment line 12 34", "###", "#", "#bedGraph section chr1:0-400", "# a remark, with spaces"]
+
+
+def gen_adjacent_comments(tier, pools):
+    """yields (format, zone, text, modes, focus).  1..3 records; every gap (before the first record, between records, after the
+    last record) holds 0, 1 or 2 (thorough: ..3) comment lines, every assignment with at least one gap of >= 2 adjacent lines;
+    runs of 3 and 4 lines at every single gap; the line texts rotate through ADJ_COMMENT_LINES (bare '#', '###', long lines).
+    LF only (the CRLF files of these formats are the class 'crlf')"""
+    quick = tier == "quick"
+    modes = ("lazy", "eager", "raw")
+    cl = ADJ_COMMENT_LINES
+    kmax = 2 if quick else 3
+    for fmt in [f for f in FORMATS if FORMATS[f]["interior"]]:
+        for n in (1, 2, 3):
+            rows = baseline(fmt, pools, n)
+            seen = set()
+            assignments = [a for a in itertools.product(range(kmax + 1), repeat=n + 1) if max(a) >= 2]
+            assignments += [tuple(k if g == g0 else 0 for g in range(n + 1)) for g0 in range(n + 1) for k in (3, 4)]
+            for a in assignments:
+                if a in seen:
+                    continue
+                seen.add(a)
+                salt = sum((g + 1) * k for g, k in enumerate(a))
+                comments = {g: [cl[(salt + 2 * g + j) % len(cl)] for j in range(k)] for g, k in enumerate(a) if k}
+                yield (fmt, "adjacent-comments", render(fmt, rows, (), comments=comments), modes,
+                       "comments-" + "".join(map(str, a)))
+
+
+# ---- operation histories: several files of one format, with different headers, read one after the other in ONE process
+HS_BASE = [("NS", "1", "Integer"), ("SC", "1", "Float"), ("AL", ".", "Integer"), ("NM", "1", "String"), ("FL", "0", "Flag"),
+           ("AFS", "A", "Float")]
+HS_COMBOS = [("1", "Integer"), ("1", "Float"), ("1", "String"), (".", "Integer"), ("A", "Float"), ("2", "Integer"), ("0", "Flag"),
+             (".", "String")]
+
+
+def hs_header(fmt, decl, ns=0, descr="about", src=""):
+    """header text of one file of a history; '##source' names the buffer type the history is read through, so that no two
+    histories read the same header text through different buffer types (that class is 'after-other-buffer-type')"""
+    lines = ["##fileformat=VCFv4.2", "##source=c02-history-%s%s" % (fmt, src)]
+    for k, number, typ in decl:
+        lines.append('##INFO=<ID=%s,Number=%s,Type=%s,Description="%s %s, with comma">' % (k, number, typ, descr, k))
+    samples = ["s%d" % i for i in range(ns)]
+    if samples:
+        lines.append('##FORMAT=<ID=GT,Number=1,Type=String,Description="Genotype">')
+    lines.append("\t".join(["#CHROM", "POS", "ID", "REF", "ALT", "QUAL", "FILTER", "INFO"] + (["FORMAT"] + samples if samples else [])))
+    return lines
+
+
+def hs_info(decl, r, v):
+    """INFO text of record r: the declared keys in an order that rotates with the record, some keys absent in some records,
+    value texts valid for the declared Type / Number (widths vary with r and v)"""
+    n = len(decl)
+    items = []
+    for j in range(n):
+        k, number, typ = decl[(j + r + v) % n]
+        if n > 2 and (j + 2 * r + v) % 5 == 4:
+            continue
+        if typ == "Flag":
+            if (r + v + j) % 2 == 0:
+                items.append(k)
+        else:
+            items.append("%s=%s" % (k, info_value(k, typ, number, r, v + j)))
+    return ";".join(items) or "."
+
+
+def hs_file(fmt, spec, v):
+    """spec: dict(decl, n (records), ns (samples), descr, src, keys (the keys the INFO texts use; default = the declared ones))"""
+    decl = spec["decl"]
+    ns = 0 if fmt == "vcf-info" else spec.get("ns", 2)
+    used = spec.get("keys", decl)
+    rows, infos = [], []
+    for r in range(spec.get("n", 3)):
+        infos.append(hs_info(used, r, v))
+        row = vcf_fixed(r + v) + [infos[-1]]
+        if ns:
+            alpha = GT_ALPHA[fmt]
+            row += ["GT"] + [alpha[(v * 5 + r * ns + s) % len(alpha)] for s in range(ns)]
+        rows.append(row)
+    if decl and info_zone(infos, decl, "") == "short-info-text":
+        return None
+    return render("vcf", rows, hs_header(fmt, decl, ns, spec.get("descr", "about"), spec.get("src", "")))
+
+
+def hs_relations(tier):
+    """yields (relation, [file spec, ...]): how the header of a later file relates to the header of an earlier one"""
+    quick = tier == "quick"
+    base = HS_BASE
+    n = len(base)
+    F = lambda decl, **kw: dict(decl=decl, **kw)
+    # one key declared differently (every key x every other (Number, Type)), both orders of the two files
+    for i, (k, number, typ) in enumerate(base):
+        for number2, typ2 in HS_COMBOS:
+            if (number2, typ2) == (number, typ):
+                continue
+            rel = "type-changed" if number2 == number else ("number-changed" if typ2 == typ else "type+number-changed")
+            alt = base[:i] + [(k, number2, typ2)] + base[i + 1:]
+            ci = HS_COMBOS.index((number2, typ2))
+            if not quick or (i + ci) % 2 == 0:                 # quick: the two orders alternate over (key, declaration)
+                yield rel, [F(base), F(alt, n=2)]
+            if not quick or (i + ci) % 2 == 1:
+                yield rel, [F(alt), F(base, n=2)]
+            if not quick or (i + ci) % 3 == 0:
+                yield rel, [F(base, n=2), F(alt, n=1), F(base, n=3)]            # back to the first header
+    # two keys declared differently at once; all keys declared differently
+    for i in range(n):
+        j = (i + 1 + i % 2) % n
+        alt = list(base)
+        for x in (i, j):
+            alt[x] = (base[x][0],) + [c for c in HS_COMBOS if c != base[x][1:]][(x + i) % (len(HS_COMBOS) - 1)]
+        yield "type+number-changed", [F(base, n=2), F(alt)]
+        yield "type+number-changed", [F(alt, n=2), F(base)]
+    for shift in (1, 3):
+        alt = [(k,) + HS_COMBOS[(HS_COMBOS.index((number, typ)) + shift) % len(HS_COMBOS)] for k, number, typ in base]
+        yield "type+number-changed", [F(base), F(alt), F(base, n=1)]
+    # the same declarations in another order
+    for s in range(1, n):
+        yield "order-changed", [F(base, n=2), F(base[s:] + base[:s])]
+    yield "order-changed", [F(base), F(base[::-1]), F(base, n=1)]
+    # the same (Number, Type) list under other IDs; the IDs of two keys exchanged
+    yield "ids-changed", [F(base), F([(k.lower(), a, b) for k, a, b in base])]
+    yield "ids-changed", [F(base, n=2), F([(k + "X", a, b) for k, a, b in base])]
+    yield "ids-changed", [F([(k + "X", a, b) for k, a, b in base], n=2), F([("Q" + k, a, b) for k, a, b in base])]
+    for i, j in ((0, 3), (1, 2), (4, 5), (0, 1)):
+        alt = list(base)
+        alt[i], alt[j] = (base[j][0],) + base[i][1:], (base[i][0],) + base[j][1:]
+        yield "ids-exchanged", [F(base), F(alt)]
+        yield "ids-exchanged", [F(alt, n=2), F(base)]
+    # fewer / more declared keys (prefixes, suffixes, one more key, a single key); the undeclared keys are not in the texts
+    for k in range(1, n):
+        for sub in (base[:k], base[k:]):
+            yield "keys-added-or-removed", [F(base), F(sub, n=2)]
+            yield "keys-added-or-removed", [F(sub), F(base, n=2)]
+    yield "keys-added-or-removed", [F(base), F(base + [("ZZ", "1", "Integer")]), F(base, n=1)]
+    yield "keys-added-or-removed", [F([("ZZ", "1", "Integer")] + base), F(base)]
+    # declared keys that the texts also use undeclared (an undeclared key is skipped)
+    yield "keys-added-or-removed", [F(base), F(base[:3], keys=base[:3] + [("XX", "1", "Integer")])]
+    # a header without INFO lines (INFO column = the text) before / after one with INFO lines
+    yield "info-declared-vs-not", [F(base), F([], keys=base)]
+    yield "info-declared-vs-not", [F([], keys=base), F(base)]
+    yield "info-declared-vs-not", [F(base, n=1), F([], keys=base, n=2), F(base)]
+    # the same INFO declarations, another Description / another ##source line / another number of samples or records
+    yield "same-declarations", [F(base), F(base, descr="on", n=2)]
+    yield "same-declarations", [F(base, n=2), F(base, src="-b")]
+    yield "same-declarations", [F(base, ns=1), F(base, ns=3, n=2), F(base, ns=2, n=1)]
+    yield "same-declarations", [F(base, n=1), F(base, n=3), F(base, n=2)]
+    # another number of sample columns and another declaration
+    alt = [base[0][:2] + ("String",)] + base[1:]
+    yield "type-changed", [F(base, ns=3), F(alt, ns=1, n=2)]
+    yield "type-changed", [F(alt, ns=1), F(base, ns=2, n=2)]
+
+
+HS_VARIANTS = [("lazy", "sequential"), ("eager", "sequential"), ("lazy", "deferred")]
+HS_FORMATS = ["vcf-info", "vcf-matrix", "vcf-gt", "vcf-phased", "vcf-haplotype"]
+
+
+def gen_vcf_histories(tier):
+    """yields (format, relation, texts, mode, order).  vcf-info: every history of hs_relations (quick: one of the three (read mode,
+    order) variants per history, rotating; thorough: all three); the genotype buffer types: every history in the thorough tier
+    (one variant, rotating), every 6th in the quick tier (offset per buffer type, so that every buffer type meets every relation
+    class)"""
+    quick = tier == "quick"
+    for fi, fmt in enumerate(HS_FORMATS):
+        for hi, (rel, specs) in enumerate(hs_relations(tier)):
+            if fmt != "vcf-info" and quick and (hi + fi) % 6:
+                continue
+            texts = [hs_file(fmt, s, hi + 2 * x) for x, s in enumerate(specs)]
+            if any(t is None for t in texts):
+                continue
+            if quick:
+                variants = [HS_VARIANTS[(hi + fi) % 3]]
+            else:
+                variants = HS_VARIANTS if fmt == "vcf-info" else [HS_VARIANTS[(hi + fi) % 3]]
+            for mode, order in variants:
+                yield fmt, rel, texts, mode, order
+
+
+def gen_format_histories(tier, pools):
+    """every other format: a file with h1 header lines and n1 records, then one with h2 != h1 header lines and n2 != n1 records (other
+    widths), then the first again"""
+    for fmt, spec in FORMATS.items():
+        hdr = header_lines_of(fmt) if spec["comment"] is not None else []
+        for k, (h1, n1, h2, n2) in enumerate(((0, 1, len(hdr), 3), (len(hdr), 2, 1 if hdr else 0, 1), (1 if hdr else 0, 3, 2 if hdr else 0, 2))):
+            t1 = render(fmt, baseline(fmt, pools, n1), hdr[:h1])
+            rows2 = baseline(fmt, pools, n2 + 1)[1:]
+            t2 = render(fmt, rows2, hdr[:h2])
+            mode, order = HS_VARIANTS[k % 3]
+            yield fmt, "header-lines-changed", [t1, t2, t1], mode, order
+    for k, (w1, w2) in enumerate(((1, 3), (4, 2))):
+        t1 = fasta_text([("chr1 a", seq_of(5, 1)), ("b", seq_of(2, 2))], w1)
+        t2 = fasta_text([("c", seq_of(7, 3))], w2)
+        yield "fasta", "header-lines-changed", [t1, t2, t1], HS_VARIANTS[k][0], HS_VARIANTS[k][1]
+    for k in range(2):
+        fq = [t for f, z, t, m, fo in itertools.islice(gen_fastq("quick"), 40) if z == "plain"]
+        yield "fastq", "header-lines-changed", [fq[k], fq[-1 - k], fq[k]], HS_VARIANTS[k + 1][0], HS_VARIANTS[k + 1][1]
+
+
+def verify_history_file(col, fmt, d, data, zone, case):
+    """count + every column of one file of a history against the spec-level parse of THAT file.  INFO keys share the label
+    'info' (which key was re-declared is a property of the input, not of the defect)"""
+    n_exp, exp = expected_of(fmt, data)
+    n_got = guard(col, lambda: len(d), fmt, zone, case)
+    if n_got is None:
+        return
+    col.check(n_got == n_exp, "%s:count:wrong-number-of-entries:%s" % (fmt, zone), case,
+              "file %d of the history: entries %r, records in file %r" % (case["file"], n_got, n_exp))
+    for name, e in exp.items():
+        if name == "genotypes" and fmt == "vcf-matrix":
+            e = expected_gt_text(data)
+        for key in ([None] if not isinstance(e, dict) else list(e)):
+            ee = e if key is None else e[key]
+            g = guard(col, lambda: column_value(fmt, d, name, key), fmt, zone, case)
+            if g is None:
+                continue
+            if isinstance(g, str) and isinstance(ee, list):
+                g = list(g)
+            col.check(ref.values_equal(g, ee), "%s:%s:wrong-value:%s" % (fmt, name, zone), case,
+                      "file %d of the history, column %s: got %r expected %r"
+                      % (case["file"], name if key is None else "%s.%s" % (name, key), g, ee))
+
+
+def check_history(col, tmp, fmt, texts, relation, mode, order):
+    """the run-time contract over an operation history: the files `texts` are read one after the other in this process
+    (order 'sequential': read file i, evaluate all its columns, go on; 'deferred': read all files first, then evaluate the
+    columns, last file first); every file must give the values ITS OWN text and header assign"""
+    zone = "other-header-before:" + relation
+    suffix, _ = suffix_and_buffer(fmt)
+    datas = [t.encode("latin1") for t in texts]
+    paths = []
+    for i, data in enumerate(datas):
+        paths.append(os.path.join(tmp, "h%d%s" % (i, suffix)))
+        with open(paths[-1], "wb") as f:
+            f.write(data)
+
+    def case_of(i):
+        col.case({"f": fmt, "m": mode, "o": order, "hist": texts, "i": i}, nontrivial=True, contract="history:count+columns:" + fmt)
+        return {"format": "history", "fmt": fmt, "texts": texts, "relation": relation, "mode": mode, "order": order,
+                "zone": zone, "file": i}
+    if order == "sequential":
+        for i, data in enumerate(datas):
+            case = case_of(i)
+            d = guard(col, lambda: read_with(fmt, paths[i], data, mode), fmt, zone, case)
+            if d is not None:
+                verify_history_file(col, fmt, d, data, zone, case)
+    else:
+        ds = []
+        for i, data in enumerate(datas):
+            ds.append(guard(col, lambda: read_with(fmt, paths[i], data, mode), fmt, zone,
+                            {"format": "history", "fmt": fmt, "texts": texts, "relation": relation, "mode": mode, "order": order,
+                             "zone": zone, "file": i}))
+        for i in reversed(range(len(datas))):
+            case = case_of(i)
+            if ds[i] is not None:
+                verify_history_file(col, fmt, ds[i], datas[i], zone, case)
+
+
 def all_cases(tier):
     pools = make_pools(tier)
     for fmt in FORMATS:
@@ -945,6 +1201,12 @@ def run(tier="quick", seed=0):
                     break
             for text, order in type_sequence_cases():      # 10 cases, run even when the budget cut the loop above
                 check_type_sequence(col, tmp, text, order)
+            # adjacent comment lines; histories of files with different headers (bounded blocks of their own, a few seconds)
+            pools = make_pools(tier)
+            for fmt, zone, text, modes, focus in gen_adjacent_comments(tier, pools):
+                check_text(col, tmp, fmt, text, zone, modes, focus)
+            for fmt, rel, texts, mode, order in itertools.chain(gen_vcf_histories(tier), gen_format_histories(tier, pools)):
+                check_history(col, tmp, fmt, texts, rel, mode, order)
             # long decimal float texts: a bounded block of its own (a few seconds quick, under a minute thorough), also run
             # when the budget cut the main loop
             for fmt, zone, text, modes, focus in gen_long_floats(tier, make_pools(tier)):
@@ -959,6 +1221,8 @@ def replay(case):
     with TmpDir() as tmp:
         if case["format"] == "vcf-typeseq":
             check_type_sequence(col, tmp, case["text"], case["order"])
+        elif case["format"] == "history":
+            check_history(col, tmp, case["fmt"], case["texts"], case["relation"], case["mode"], case["order"])
         else:
             check_text(col, tmp, case["format"], case["text"], case.get("zone", "replay"), (case["mode"],), case.get("focus"))
     if col.failures:
